@@ -308,6 +308,16 @@ def swc_facts(n_extra, writer_only=False):
     return [f for f in out if f is not None]
 
 
+def writer_line_facts():
+    """what the writer yields for a node is ONE line: the cell texts contain no line-break character, the only one is the final newline
+    (premise of the round-trip lemma's io assumption `the reader gets the yielded texts back line by line`)"""
+    names = COLS
+    wlang = {nm: L(W_NAT) if nm in ("id", "type") else L(W_PID) if nm == "pid" else L(W_FLOAT) for nm in names}
+    no_break = z3.Star(RZ.re_of_ranges(RZ.complement([(10, 10), (13, 13)])))
+    return [subset("written-row-line-ends-with-its-only-line-break", RZ.cat(_joined([wlang[nm] for nm in names], RZ.lit(" ")), RZ.lit("\n")), RZ.cat(no_break, RZ.lit("\n")),
+                   "the line `' '.join(cells) + '\\n'` has no LF / CR but its last character: a reader splitting at line breaks gets it back as one line")]
+
+
 def token_lemma_facts():
     """the whitespace-token lemma as language facts over ABSTRACT token languages (pattern-independent):
     if a.g.b = a'.g'.b' with a, a' whitespace runs, g, g' nonempty whitespace-free, b, b' empty or starting with whitespace,
@@ -375,7 +385,7 @@ def facts(prop):
     if prop == "C02":
         fs = swc_facts(0) + swc_facts(1)
     elif prop == "C01":
-        fs = swc_facts(0, writer_only=True)
+        fs = swc_facts(0, writer_only=True) + writer_line_facts()
     elif prop == "C15":
         fs = asc_facts()
     else:
